@@ -86,6 +86,25 @@ end
 theorem cost_ge (e : Expr) : 1 ≤ cost e := by
   cases e <;> simp only [cost] <;> omega
 
+/-! ### the name classes on the kinds the parser dispatches on -/
+
+theorem isVarName_NUMBER : Kind.isVarName .NUMBER = false := rfl
+theorem isVarName_FRACTION : Kind.isVarName .FRACTION = false := rfl
+theorem isVarName_STRING : Kind.isVarName .STRING = false := rfl
+theorem isVarName_TRUE : Kind.isVarName .TRUE = false := rfl
+theorem isVarName_FALSE : Kind.isVarName .FALSE = false := rfl
+theorem isVarName_NAMESPACE : Kind.isVarName .NAMESPACE = false := rfl
+theorem isVarName_SELF : Kind.isVarName .SELF = false := rfl
+theorem isVarName_SELECTED : Kind.isVarName .SELECTED = false := rfl
+theorem isVarName_PARAM : Kind.isVarName .PARAM = false := rfl
+theorem isVarName_RCVD_EVT : Kind.isVarName .RCVD_EVT = false := rfl
+theorem isVarName_DOUBLECOLON : Kind.isVarName .DOUBLECOLON = false := rfl
+theorem isVarName_LPAREN : Kind.isVarName .LPAREN = false := rfl
+theorem isVarName_RPAREN : Kind.isVarName .RPAREN = false := rfl
+theorem isIdent_RPAREN : Kind.isIdent .RPAREN = false := rfl
+theorem isIdent_ID : Kind.isIdent .ID = true := rfl
+theorem isVarName_ID : Kind.isVarName .ID = true := rfl
+
 /-! ### equation lemmas of the renderers -/
 
 @[simp] theorem LP_kind : LP.kind = .LPAREN := rfl
@@ -107,22 +126,22 @@ theorem render_paren (t : Tbl) {e : Expr} {need : Nat} (h : e.level t < need) :
 theorem render_zero (t : Tbl) (e : Expr) : render t e 0 = renderRaw t e :=
   render_raw t (Nat.not_lt_zero _)
 
-theorem renderRaw_field (t : Tbl) (h : Expr) (n : String) :
-    renderRaw t (.field h n) = renderRaw t h ++ [tk .DOT ".", tk .ID n] := by
+theorem renderRaw_field (t : Tbl) (h : Expr) (n : Tok) :
+    renderRaw t (.field h n) = renderRaw t h ++ [tk .DOT ".", n] := by
   rw [renderRaw]
 theorem renderRaw_index (t : Tbl) (h i : Expr) :
     renderRaw t (.index h i) = renderRaw t h ++ tk .LSQBR "[" :: (render t i 0 ++ [tk .RSQBR "]"]) := by
   rw [renderRaw]; rfl
-theorem renderRaw_fcall (t : Tbl) (n : String) (ps : Params) :
-    renderRaw t (.fcall n ps) = tk .DOUBLECOLON "::" :: tk .ID n :: LP :: (renderParams t ps ++ [RP]) := by
+theorem renderRaw_fcall (t : Tbl) (n : Tok) (ps : Params) :
+    renderRaw t (.fcall n ps) = tk .DOUBLECOLON "::" :: n :: LP :: (renderParams t ps ++ [RP]) := by
   rw [renderRaw]
-theorem renderRaw_icall (t : Tbl) (ns n : String) (ps : Params) :
+theorem renderRaw_icall (t : Tbl) (ns : String) (n : Tok) (ps : Params) :
     renderRaw t (.icall ns n ps) =
-      tk .NAMESPACE ns :: tk .DOUBLECOLON "::" :: tk .ID n :: LP :: (renderParams t ps ++ [RP]) := by
+      tk .NAMESPACE ns :: tk .DOUBLECOLON "::" :: n :: LP :: (renderParams t ps ++ [RP]) := by
   rw [renderRaw]
-theorem renderRaw_ocall (t : Tbl) (h : Expr) (n : String) (ps : Params) :
+theorem renderRaw_ocall (t : Tbl) (h : Expr) (n : Tok) (ps : Params) :
     renderRaw t (.ocall h n ps) =
-      renderRaw t h ++ tk .DOT "." :: tk .ID n :: LP :: (renderParams t ps ++ [RP]) := by
+      renderRaw t h ++ tk .DOT "." :: n :: LP :: (renderParams t ps ++ [RP]) := by
   rw [renderRaw]
 theorem renderRaw_un (t : Tbl) (op : Tok) (e : Expr) :
     renderRaw t (.un op e) = op :: render t e t.ulevel := by
@@ -131,12 +150,12 @@ theorem renderRaw_bin (t : Tbl) (l : Expr) (op : Tok) (r : Expr) {lv a} (h : t.b
     renderRaw t (.bin l op r) = render t l (lmin lv a) ++ op :: render t r (rmin lv a) := by
   rw [renderRaw]; simp only [h]; rfl
 theorem renderParams_nil (t : Tbl) : renderParams t .nil = [] := by rw [renderParams]
-theorem renderParams_one (t : Tbl) (n : String) (e : Expr) :
-    renderParams t (.cons n e .nil) = tk .ID n :: tk .COLON ":" :: render t e 0 := by
+theorem renderParams_one (t : Tbl) (n : Tok) (e : Expr) :
+    renderParams t (.cons n e .nil) = n :: tk .COLON ":" :: render t e 0 := by
   rw [renderParams]; rfl
-theorem renderParams_more (t : Tbl) (n : String) (e : Expr) (n' : String) (e' : Expr) (ps : Params) :
+theorem renderParams_more (t : Tbl) (n : Tok) (e : Expr) (n' : Tok) (e' : Expr) (ps : Params) :
     renderParams t (.cons n e (.cons n' e' ps)) =
-      tk .ID n :: tk .COLON ":" :: (render t e 0 ++ tk .COMMA "," :: renderParams t (.cons n' e' ps)) := by
+      n :: tk .COLON ":" :: (render t e 0 ++ tk .COMMA "," :: renderParams t (.cons n' e' ps)) := by
   rw [renderParams]
   · rfl
   · intro h; cases h
@@ -153,21 +172,21 @@ structure Rend where
   real : ∀ v, R (.real v) = [tk .FRACTION v]
   str : ∀ v, R (.str v) = [tk .STRING v]
   bool : ∀ b v, R (.bool b v) = [tk (if b then .TRUE else .FALSE) v]
-  enumc : ∀ ns n, R (.enumc ns n) = [tk .NAMESPACE ns, tk .DOUBLECOLON "::", tk .ID n]
-  var : ∀ n, R (.var n) = [tk .ID n]
+  enumc : ∀ ns n, R (.enumc ns n) = [tk .NAMESPACE ns, tk .DOUBLECOLON "::", n]
+  var : ∀ n, R (.var n) = [n]
   self : R .self = [tk .SELF "self"]
   selected : R .selected = [tk .SELECTED "selected"]
-  param : ∀ n, R (.param n) = [tk .PARAM "param", tk .DOT ".", tk .ID n]
-  field : ∀ h n, R (.field h n) = R h ++ [tk .DOT ".", tk .ID n]
+  param : ∀ n, R (.param n) = [tk .PARAM "param", tk .DOT ".", n]
+  field : ∀ h n, R (.field h n) = R h ++ [tk .DOT ".", n]
   index : ∀ h i, R (.index h i) = R h ++ tk .LSQBR "[" :: (RI i ++ [tk .RSQBR "]"])
-  fcall : ∀ n ps, R (.fcall n ps) = tk .DOUBLECOLON "::" :: tk .ID n :: LP :: (RPs ps ++ [RP])
+  fcall : ∀ n ps, R (.fcall n ps) = tk .DOUBLECOLON "::" :: n :: LP :: (RPs ps ++ [RP])
   icall : ∀ ns n ps, R (.icall ns n ps) =
-    tk .NAMESPACE ns :: tk .DOUBLECOLON "::" :: tk .ID n :: LP :: (RPs ps ++ [RP])
-  ocall : ∀ h n ps, R (.ocall h n ps) = R h ++ tk .DOT "." :: tk .ID n :: LP :: (RPs ps ++ [RP])
+    tk .NAMESPACE ns :: tk .DOUBLECOLON "::" :: n :: LP :: (RPs ps ++ [RP])
+  ocall : ∀ h n ps, R (.ocall h n ps) = R h ++ tk .DOT "." :: n :: LP :: (RPs ps ++ [RP])
   pnil : RPs .nil = []
-  pone : ∀ n e, RPs (.cons n e .nil) = tk .ID n :: tk .COLON ":" :: RI e
+  pone : ∀ n e, RPs (.cons n e .nil) = n :: tk .COLON ":" :: RI e
   pmore : ∀ n e n' e' ps, RPs (.cons n e (.cons n' e' ps)) =
-    tk .ID n :: tk .COLON ":" :: (RI e ++ tk .COMMA "," :: RPs (.cons n' e' ps))
+    n :: tk .COLON ":" :: (RI e ++ tk .COMMA "," :: RPs (.cons n' e' ps))
 
 def rawRend (t : Tbl) : Rend where
   R := renderRaw t
@@ -313,7 +332,7 @@ theorem prefix_paren {t : Tbl} (wf : t.WF) {e : Expr} (h2 : Q2 t e) (rest : List
     h2 0 (RP :: rest) (e, RP :: rest) 1 (Nat.zero_le _) (stopsAfter_rp wf e RP rfl rest)
       (loop_stops t (stops_rp wf 0 RP rfl rest).2) f' (by omega)
   have hu : t.un Kind.LPAREN = false := wf.unAtom _ rfl
-  simp only [parsePrefix, LP_kind, hu, Bool.false_eq_true, ↓reduceIte, hin, hk_cons, RP_kind, List.drop_succ_cons,
+  simp only [parsePrefix, isVarName_NUMBER, isVarName_FRACTION, isVarName_STRING, isVarName_TRUE, isVarName_FALSE, isVarName_NAMESPACE, isVarName_SELF, isVarName_SELECTED, isVarName_PARAM, isVarName_RCVD_EVT, isVarName_DOUBLECOLON, isVarName_LPAREN, isVarName_RPAREN, LP_kind, hu, Bool.false_eq_true, ↓reduceIte, hin, hk_cons, RP_kind, List.drop_succ_cons,
     List.drop_zero]
 
 theorem p3_of_q2 {t : Tbl} (wf : t.WF) (e : Expr) (h2 : Q2 t e) : P3 t e := by
@@ -352,7 +371,7 @@ theorem p1_int (wf : t.WF) (v : String) : P1g rd t (.int v) := by
   obtain ⟨f', rfl⟩ := fuel_succ (f := f) (n := 0) (by simp only [cost] at hf; omega)
   have hu : t.un Kind.NUMBER = false := wf.unAtom _ rfl
   rw [rd.int]
-  simp only [List.cons_append, List.nil_append, parsePrefix, tk_kind, tk_lex, hu, Bool.false_eq_true,
+  simp only [List.cons_append, List.nil_append, parsePrefix, isVarName_NUMBER, isVarName_FRACTION, isVarName_STRING, isVarName_TRUE, isVarName_FALSE, isVarName_NAMESPACE, isVarName_SELF, isVarName_SELECTED, isVarName_PARAM, isVarName_RCVD_EVT, isVarName_DOUBLECOLON, isVarName_LPAREN, isVarName_RPAREN, tk_kind, tk_lex, hu, Bool.false_eq_true,
     ↓reduceIte]
 
 theorem p1_real (wf : t.WF) (v : String) : P1g rd t (.real v) := by
@@ -360,7 +379,7 @@ theorem p1_real (wf : t.WF) (v : String) : P1g rd t (.real v) := by
   obtain ⟨f', rfl⟩ := fuel_succ (f := f) (n := 0) (by simp only [cost] at hf; omega)
   have hu : t.un Kind.FRACTION = false := wf.unAtom _ rfl
   rw [rd.real]
-  simp only [List.cons_append, List.nil_append, parsePrefix, tk_kind, tk_lex, hu, Bool.false_eq_true,
+  simp only [List.cons_append, List.nil_append, parsePrefix, isVarName_NUMBER, isVarName_FRACTION, isVarName_STRING, isVarName_TRUE, isVarName_FALSE, isVarName_NAMESPACE, isVarName_SELF, isVarName_SELECTED, isVarName_PARAM, isVarName_RCVD_EVT, isVarName_DOUBLECOLON, isVarName_LPAREN, isVarName_RPAREN, tk_kind, tk_lex, hu, Bool.false_eq_true,
     ↓reduceIte]
 
 theorem p1_str (wf : t.WF) (v : String) : P1g rd t (.str v) := by
@@ -368,7 +387,7 @@ theorem p1_str (wf : t.WF) (v : String) : P1g rd t (.str v) := by
   obtain ⟨f', rfl⟩ := fuel_succ (f := f) (n := 0) (by simp only [cost] at hf; omega)
   have hu : t.un Kind.STRING = false := wf.unAtom _ rfl
   rw [rd.str]
-  simp only [List.cons_append, List.nil_append, parsePrefix, tk_kind, tk_lex, hu, Bool.false_eq_true,
+  simp only [List.cons_append, List.nil_append, parsePrefix, isVarName_NUMBER, isVarName_FRACTION, isVarName_STRING, isVarName_TRUE, isVarName_FALSE, isVarName_NAMESPACE, isVarName_SELF, isVarName_SELECTED, isVarName_PARAM, isVarName_RCVD_EVT, isVarName_DOUBLECOLON, isVarName_LPAREN, isVarName_RPAREN, tk_kind, tk_lex, hu, Bool.false_eq_true,
     ↓reduceIte]
 
 theorem p1_bool (wf : t.WF) (b : Bool) (v : String) : P1g rd t (.bool b v) := by
@@ -378,25 +397,27 @@ theorem p1_bool (wf : t.WF) (b : Bool) (v : String) : P1g rd t (.bool b v) := by
   have hu2 : t.un Kind.FALSE = false := wf.unAtom _ rfl
   rw [rd.bool]
   cases b <;>
-  simp only [List.cons_append, List.nil_append, parsePrefix, tk_kind, tk_lex, hu1, hu2, Bool.false_eq_true,
+  simp only [List.cons_append, List.nil_append, parsePrefix, isVarName_NUMBER, isVarName_FRACTION, isVarName_STRING, isVarName_TRUE, isVarName_FALSE, isVarName_NAMESPACE, isVarName_SELF, isVarName_SELECTED, isVarName_PARAM, isVarName_RCVD_EVT, isVarName_DOUBLECOLON, isVarName_LPAREN, isVarName_RPAREN, tk_kind, tk_lex, hu1, hu2, Bool.false_eq_true,
     ↓reduceIte]
 
-theorem p1_enumc (wf : t.WF) (ns n : String) : P1g rd t (.enumc ns n) := by
+theorem isAtomStart_of_isVarName {k : Kind} (h : k.isVarName = true) : k.isAtomStart = true := by
+  cases k <;> first | rfl | (simp [Kind.isVarName] at h)
+
+theorem p1_enumc (wf : t.WF) (ns : String) (n : Tok) (hn : n.kind.isIdent = true) : P1g rd t (.enumc ns n) := by
   intro rest hne f hf
   obtain ⟨f', rfl⟩ := fuel_succ (f := f) (n := 0) (by simp only [cost] at hf; omega)
   have hu : t.un Kind.NAMESPACE = false := wf.unAtom _ rfl
   have hlp := hne.2.2
   rw [rd.enumc]
-  simp only [List.cons_append, List.nil_append, parsePrefix, tk_kind, tk_lex, hu, Bool.false_eq_true,
-    ↓reduceIte, and_self, hlp]
+  simp only [List.cons_append, List.nil_append, parsePrefix, isVarName_NUMBER, isVarName_FRACTION, isVarName_STRING, isVarName_TRUE, isVarName_FALSE, isVarName_NAMESPACE, isVarName_SELF, isVarName_SELECTED, isVarName_PARAM, isVarName_RCVD_EVT, isVarName_DOUBLECOLON, isVarName_LPAREN, isVarName_RPAREN, tk_kind, tk_lex, hu, Bool.false_eq_true,
+    ↓reduceIte, and_self, hlp, hn]
 
-theorem ch_var (wf : t.WF) (n : String) : CHg rd t (.var n) := by
+theorem ch_var (wf : t.WF) (n : Tok) (hn : n.kind.isVarName = true) : CHg rd t (.var n) := by
   intro rest r G _ hk f hf
   obtain ⟨f', rfl⟩ := fuel_succ (f := f) (n := 0) (by simp only [cost] at hf; omega)
-  have hu : t.un Kind.ID = false := wf.unAtom _ rfl
+  have hu : t.un n.kind = false := wf.unAtom _ (isAtomStart_of_isVarName hn)
   rw [rd.var]
-  simp only [List.cons_append, List.nil_append, parsePrefix, tk_kind, tk_lex, hu, Bool.false_eq_true,
-    ↓reduceIte]
+  simp only [List.cons_append, List.nil_append, parsePrefix, hu, Bool.false_eq_true, ↓reduceIte, hn]
   exact hk f' (by simp only [cost] at hf; omega)
 
 theorem ch_self (wf : t.WF) : CHg rd t .self := by
@@ -404,7 +425,7 @@ theorem ch_self (wf : t.WF) : CHg rd t .self := by
   obtain ⟨f', rfl⟩ := fuel_succ (f := f) (n := 0) (by simp only [cost] at hf; omega)
   have hu : t.un Kind.SELF = false := wf.unAtom _ rfl
   rw [rd.self]
-  simp only [List.cons_append, List.nil_append, parsePrefix, tk_kind, hu, Bool.false_eq_true,
+  simp only [List.cons_append, List.nil_append, parsePrefix, isVarName_NUMBER, isVarName_FRACTION, isVarName_STRING, isVarName_TRUE, isVarName_FALSE, isVarName_NAMESPACE, isVarName_SELF, isVarName_SELECTED, isVarName_PARAM, isVarName_RCVD_EVT, isVarName_DOUBLECOLON, isVarName_LPAREN, isVarName_RPAREN, tk_kind, hu, Bool.false_eq_true,
     ↓reduceIte]
   exact hk f' (by simp only [cost] at hf; omega)
 
@@ -413,28 +434,28 @@ theorem ch_selected (wf : t.WF) : CHg rd t .selected := by
   obtain ⟨f', rfl⟩ := fuel_succ (f := f) (n := 0) (by simp only [cost] at hf; omega)
   have hu : t.un Kind.SELECTED = false := wf.unAtom _ rfl
   rw [rd.selected]
-  simp only [List.cons_append, List.nil_append, parsePrefix, tk_kind, hu, Bool.false_eq_true,
+  simp only [List.cons_append, List.nil_append, parsePrefix, isVarName_NUMBER, isVarName_FRACTION, isVarName_STRING, isVarName_TRUE, isVarName_FALSE, isVarName_NAMESPACE, isVarName_SELF, isVarName_SELECTED, isVarName_PARAM, isVarName_RCVD_EVT, isVarName_DOUBLECOLON, isVarName_LPAREN, isVarName_RPAREN, tk_kind, hu, Bool.false_eq_true,
     ↓reduceIte]
   exact hk f' (by simp only [cost] at hf; omega)
 
-theorem ch_param (wf : t.WF) (n : String) : CHg rd t (.param n) := by
+theorem ch_param (wf : t.WF) (n : Tok) (hn : n.kind.isVarName = true) : CHg rd t (.param n) := by
   intro rest r G _ hk f hf
   obtain ⟨f', rfl⟩ := fuel_succ (f := f) (n := 0) (by simp only [cost] at hf; omega)
   have hu : t.un Kind.PARAM = false := wf.unAtom _ rfl
   rw [rd.param]
-  simp only [List.cons_append, List.nil_append, parsePrefix, tk_kind, tk_lex, hu, Bool.false_eq_true,
-    ↓reduceIte, and_self]
+  simp only [List.cons_append, List.nil_append, parsePrefix, isVarName_NUMBER, isVarName_FRACTION, isVarName_STRING, isVarName_TRUE, isVarName_FALSE, isVarName_NAMESPACE, isVarName_SELF, isVarName_SELECTED, isVarName_PARAM, isVarName_RCVD_EVT, isVarName_DOUBLECOLON, isVarName_LPAREN, isVarName_RPAREN, tk_kind, tk_lex, hu, Bool.false_eq_true,
+    ↓reduceIte, and_self, hn]
   exact hk f' (by simp only [cost] at hf; omega)
 
-theorem ch_field {h : Expr} (n : String) (hc : h.isChain = true) (ih : CHg rd t h) :
+theorem ch_field {h : Expr} (n : Tok) (hn : n.kind.isIdent = true) (hc : h.isChain = true) (ih : CHg rd t h) :
     CHg rd t (.field h n) := by
   intro rest r G hlp hk f hf
   rw [rd.field, List.append_assoc]
   simp only [cost] at hf
-  refine ih (tk .DOT "." :: tk .ID n :: rest) r (G + 1) (by simp) ?_ f (by omega)
+  refine ih (tk .DOT "." :: n :: rest) r (G + 1) (by simp) ?_ f (by omega)
   intro g hg
   obtain ⟨g', rfl⟩ := fuel_succ hg
-  simp only [parseSuffix, tk_kind, tk_lex, ↓reduceIte, hlp, hc]
+  simp only [parseSuffix, tk_kind, tk_lex, ↓reduceIte, hlp, hc, hn]
   exact hk g' (by omega)
 
 theorem ch_index (wf : t.WF) {h i : Expr} (hc : h.isIndexable = true) (ih : CHg rd t h) (p3i : P3I rd t i) :
@@ -450,42 +471,44 @@ theorem ch_index (wf : t.WF) {h i : Expr} (hc : h.isIndexable = true) (ih : CHg 
     List.drop_succ_cons, List.drop_zero]
   exact hk g' (by omega)
 
-theorem p1_fcall (wf : t.WF) (n : String) {ps : Params} (pp : PPg rd t ps) : P1g rd t (.fcall n ps) := by
+theorem p1_fcall (wf : t.WF) (n : Tok) (hn : n.kind.isIdent = true) {ps : Params} (pp : PPg rd t ps) :
+    P1g rd t (.fcall n ps) := by
   intro rest _ f hf
   simp only [cost] at hf
   obtain ⟨f', rfl⟩ := fuel_succ (f := f) (n := 0) (by omega)
   have hu : t.un Kind.DOUBLECOLON = false := wf.unAtom _ rfl
   have hp := pp RP rest rfl f' (by omega)
   rw [rd.fcall]
-  simp only [List.cons_append, List.append_assoc, List.nil_append, parsePrefix, tk_kind, tk_lex, LP_kind, hu,
-    Bool.false_eq_true, ↓reduceIte, and_self, hp, hk_cons, RP_kind, List.drop_succ_cons, List.drop_zero]
+  simp only [List.cons_append, List.append_assoc, List.nil_append, parsePrefix, isVarName_NUMBER, isVarName_FRACTION, isVarName_STRING, isVarName_TRUE, isVarName_FALSE, isVarName_NAMESPACE, isVarName_SELF, isVarName_SELECTED, isVarName_PARAM, isVarName_RCVD_EVT, isVarName_DOUBLECOLON, isVarName_LPAREN, isVarName_RPAREN, tk_kind, tk_lex, LP_kind, hu,
+    Bool.false_eq_true, ↓reduceIte, and_self, hp, hk_cons, RP_kind, List.drop_succ_cons, List.drop_zero, hn]
 
-theorem p1_icall (wf : t.WF) (ns n : String) {ps : Params} (pp : PPg rd t ps) : P1g rd t (.icall ns n ps) := by
+theorem p1_icall (wf : t.WF) (ns : String) (n : Tok) (hn : n.kind.isIdent = true) {ps : Params} (pp : PPg rd t ps) :
+    P1g rd t (.icall ns n ps) := by
   intro rest _ f hf
   simp only [cost] at hf
   obtain ⟨f', rfl⟩ := fuel_succ (f := f) (n := 0) (by omega)
   have hu : t.un Kind.NAMESPACE = false := wf.unAtom _ rfl
   have hp := pp RP rest rfl f' (by omega)
   rw [rd.icall]
-  simp only [List.cons_append, List.append_assoc, List.nil_append, parsePrefix, tk_kind, tk_lex, LP_kind, hu,
-    Bool.false_eq_true, ↓reduceIte, and_self, hp, hk_cons, RP_kind, List.drop_succ_cons, List.drop_zero]
+  simp only [List.cons_append, List.append_assoc, List.nil_append, parsePrefix, isVarName_NUMBER, isVarName_FRACTION, isVarName_STRING, isVarName_TRUE, isVarName_FALSE, isVarName_NAMESPACE, isVarName_SELF, isVarName_SELECTED, isVarName_PARAM, isVarName_RCVD_EVT, isVarName_DOUBLECOLON, isVarName_LPAREN, isVarName_RPAREN, tk_kind, tk_lex, LP_kind, hu,
+    Bool.false_eq_true, ↓reduceIte, and_self, hp, hk_cons, RP_kind, List.drop_succ_cons, List.drop_zero, hn]
 
-theorem p1_ocall {h : Expr} (n : String) {ps : Params} (hs : h.isStruct = true) (ih : CHg rd t h)
+theorem p1_ocall {h : Expr} (n : Tok) (hn : n.kind.isIdent = true) {ps : Params} (hs : h.isStruct = true) (ih : CHg rd t h)
     (pp : PPg rd t ps) : P1g rd t (.ocall h n ps) := by
   intro rest _ f hf
   simp only [cost] at hf
   rw [rd.ocall, List.append_assoc]
-  refine ih (tk .DOT "." :: tk .ID n :: LP :: (rd.RPs ps ++ [RP]) ++ rest) _ (costP ps + 1) (by simp) ?_ f
+  refine ih (tk .DOT "." :: n :: LP :: (rd.RPs ps ++ [RP]) ++ rest) _ (costP ps + 1) (by simp) ?_ f
     (by omega)
   intro g hg
   obtain ⟨g', rfl⟩ := fuel_succ hg
   have hp := pp RP rest rfl g' (by omega)
   simp only [List.cons_append, List.append_assoc, List.nil_append, parseSuffix, tk_kind, tk_lex, ↓reduceIte, hk_cons,
-    LP_kind, hs, List.drop_succ_cons, List.drop_zero, hp, RP_kind]
+    LP_kind, hs, List.drop_succ_cons, List.drop_zero, hp, RP_kind, hn]
 
-theorem ch_of_struct (wf : t.WF) {h : Expr} (hs : h.isStruct = true) : CHg rd t h := by
+theorem ch_of_struct (wf : t.WF) {h : Expr} (hs : h.isStruct = true) (hok : h.Ok t) : CHg rd t h := by
   cases h with
-  | var n => exact ch_var wf n
+  | var n => exact ch_var wf n (by simpa only [Expr.Ok] using hok)
   | self => exact ch_self wf
   | selected => exact ch_selected wf
   | _ => simp [Expr.isStruct] at hs
@@ -499,9 +522,10 @@ theorem pp_nil : PPg rd t .nil := by
   rw [rd.pnil, List.nil_append]
   cases rest with
   | nil => simp only [parseParams]
-  | cons c ts => simp only [parseParams, hrp, reduceCtorEq, false_and, ↓reduceIte]
+  | cons c ts => simp only [parseParams, hrp, isIdent_RPAREN, Bool.false_eq_true, false_and, ↓reduceIte]
 
-theorem pp_cons (wf : t.WF) (n : String) {e : Expr} {ps : Params} (p3 : P3I rd t e) (pp : PPg rd t ps) :
+theorem pp_cons (wf : t.WF) (n : Tok) (hn : n.kind.isIdent = true) {e : Expr} {ps : Params} (p3 : P3I rd t e)
+    (pp : PPg rd t ps) :
     PPg rd t (.cons n e ps) := by
   intro rp rest hrp f hf
   simp only [costP] at hf
@@ -511,14 +535,14 @@ theorem pp_cons (wf : t.WF) (n : String) {e : Expr} {ps : Params} (p3 : P3I rd t
     have he := p3 (rp :: rest) (stops_rp wf 0 rp hrp rest) f' (by omega)
     rw [rd.pone]
     simp only [List.cons_append, parseParams, tk_kind, tk_lex, and_self, ↓reduceIte, he, hk_cons, hrp, Option.some.injEq,
-      reduceCtorEq]
+      reduceCtorEq, hn]
   | cons n' e' ps' =>
     have he := p3 (tk .COMMA "," :: (rd.RPs (.cons n' e' ps') ++ rp :: rest))
       (stops_comma wf 0 _ rfl _) f' (by omega)
     have hps := pp rp rest hrp f' (by omega)
     rw [rd.pmore]
     simp only [List.cons_append, List.append_assoc, parseParams, tk_kind, tk_lex, and_self, ↓reduceIte, he, hk_cons,
-      List.drop_succ_cons, List.drop_zero, hps]
+      List.drop_succ_cons, List.drop_zero, hps, hn]
 
 end atoms
 
@@ -691,27 +715,27 @@ theorem good {t : Tbl} (wf : t.WF) : (e : Expr) → e.Ok t → Good t e
   | .real v, _ => good_of_p1 wf rfl rfl (p1_real wf v)
   | .str v, _ => good_of_p1 wf rfl rfl (p1_str wf v)
   | .bool b v, _ => good_of_p1 wf rfl rfl (p1_bool wf b v)
-  | .enumc ns n, _ => good_of_p1 wf rfl rfl (p1_enumc wf ns n)
-  | .var n, _ => good_of_ch wf rfl (ch_var wf n)
+  | .enumc ns n, hok => good_of_p1 wf rfl rfl (p1_enumc wf ns n (by simpa only [Expr.Ok] using hok))
+  | .var n, hok => good_of_ch wf rfl (ch_var wf n (by simpa only [Expr.Ok] using hok))
   | .self, _ => good_of_ch wf rfl (ch_self wf)
   | .selected, _ => good_of_ch wf rfl (ch_selected wf)
-  | .param n, _ => good_of_ch wf rfl (ch_param wf n)
+  | .param n, hok => good_of_ch wf rfl (ch_param wf n (by simpa only [Expr.Ok] using hok))
   | .field h n, hok => by
     simp only [Expr.Ok] at hok
-    exact good_of_ch wf rfl (ch_field n hok.1 ((good wf h hok.2).ch hok.1))
+    exact good_of_ch wf rfl (ch_field n hok.2.2 hok.1 ((good wf h hok.2.1).ch hok.1))
   | .index h i, hok => by
     simp only [Expr.Ok] at hok
     exact good_of_ch wf rfl
       (ch_index wf hok.1 ((good wf h hok.2.1).ch (isChain_of_isIndexable hok.1)) ((good wf i hok.2.2).p3 0))
   | .fcall n ps, hok => by
     simp only [Expr.Ok] at hok
-    exact good_of_p1 wf rfl rfl (p1_fcall wf n (goodP wf ps hok))
+    exact good_of_p1 wf rfl rfl (p1_fcall wf n hok.1 (goodP wf ps hok.2))
   | .icall ns n ps, hok => by
     simp only [Expr.Ok] at hok
-    exact good_of_p1 wf rfl rfl (p1_icall wf ns n (goodP wf ps hok))
+    exact good_of_p1 wf rfl rfl (p1_icall wf ns n hok.1 (goodP wf ps hok.2))
   | .ocall h n ps, hok => by
     simp only [Expr.Ok] at hok
-    exact good_of_p1 wf rfl rfl (p1_ocall n hok.1 (ch_of_struct wf hok.1) (goodP wf ps hok.2))
+    exact good_of_p1 wf rfl rfl (p1_ocall n hok.2.2.1 hok.1 (ch_of_struct wf hok.1 hok.2.1) (goodP wf ps hok.2.2.2))
   | .un op e, hok => by
     simp only [Expr.Ok] at hok
     exact good_of_q2 wf rfl rfl (q2_un wf hok.1 (good wf e hok.2).p3)
@@ -727,7 +751,7 @@ theorem goodP {t : Tbl} (wf : t.WF) : (ps : Params) → ps.Ok t → PP t ps
   | .nil, _ => pp_nil
   | .cons n e ps, hok => by
     simp only [Params.Ok] at hok
-    exact pp_cons wf n ((good wf e hok.1).p3 0) (goodP wf ps hok.2)
+    exact pp_cons wf n hok.1 ((good wf e hok.2.1).p3 0) (goodP wf ps hok.2.2)
 end
 
 /-! #### fuel: `fuelFor` is enough -/
@@ -748,7 +772,7 @@ theorem cost_le_len (t : Tbl) : (e : Expr) → e.Ok t → cost e ≤ 6 * (render
   | .param n, _ => by simp [cost, renderRaw]
   | .field h n, hok => by
     simp only [Expr.Ok] at hok
-    have := cost_le_len t h hok.2
+    have := cost_le_len t h hok.2.1
     simp only [cost, renderRaw_field, List.length_append, List.length_cons, List.length_nil]
     omega
   | .index h i, hok => by
@@ -759,17 +783,17 @@ theorem cost_le_len (t : Tbl) : (e : Expr) → e.Ok t → cost e ≤ 6 * (render
     omega
   | .fcall n ps, hok => by
     simp only [Expr.Ok] at hok
-    have := costP_le_len t ps hok
+    have := costP_le_len t ps hok.2
     simp only [cost, renderRaw_fcall, List.length_append, List.length_cons, List.length_nil]
     omega
   | .icall ns n ps, hok => by
     simp only [Expr.Ok] at hok
-    have := costP_le_len t ps hok
+    have := costP_le_len t ps hok.2
     simp only [cost, renderRaw_icall, List.length_append, List.length_cons, List.length_nil]
     omega
   | .ocall h n ps, hok => by
     simp only [Expr.Ok] at hok
-    have := costP_le_len t ps hok.2
+    have := costP_le_len t ps hok.2.2.2
     have hh : cost h ≤ 6 * (renderRaw t h).length := by
       have hs := hok.1
       cases h <;> simp [Expr.isStruct] at hs <;> simp [cost, renderRaw]
@@ -798,13 +822,13 @@ theorem costP_le_len (t : Tbl) : (ps : Params) → ps.Ok t → costP ps ≤ 6 * 
   | .nil, _ => by simp [costP]
   | .cons n e .nil, hok => by
     simp only [Params.Ok] at hok
-    have := cost_le_len t e hok.1
+    have := cost_le_len t e hok.2.1
     simp only [costP, renderParams_one, render_zero, List.length_cons]
     omega
   | .cons n e (.cons n' e' ps), hok => by
     simp only [Params.Ok] at hok
-    have := cost_le_len t e hok.1
-    have := costP_le_len t (.cons n' e' ps) (by simp only [Params.Ok]; exact hok.2)
+    have := cost_le_len t e hok.2.1
+    have := costP_le_len t (.cons n' e' ps) (by simp only [Params.Ok]; exact hok.2.2)
     simp only [renderParams_more, render_zero, List.length_cons, List.length_append]
     simp only [costP] at this ⊢
     omega
@@ -875,7 +899,7 @@ theorem parsePrefix_lp {t : Tbl} (wf : t.WF) (f : Nat) (ts : List Tok) :
       | some (e, ts') => if hk ts' = some .RPAREN then some (e, ts'.drop 1) else none
       | none => none := by
   have hul : t.un Kind.LPAREN = false := wf.unAtom _ rfl
-  simp only [parsePrefix, LP_kind, hul, Bool.false_eq_true, ↓reduceIte]
+  simp only [parsePrefix, isVarName_NUMBER, isVarName_FRACTION, isVarName_STRING, isVarName_TRUE, isVarName_FALSE, isVarName_NAMESPACE, isVarName_SELF, isVarName_SELECTED, isVarName_PARAM, isVarName_RCVD_EVT, isVarName_DOUBLECOLON, isVarName_LPAREN, isVarName_RPAREN, LP_kind, hul, Bool.false_eq_true, ↓reduceIte]
   cases parseExpr t f 0 ts with
   | none => rfl
   | some x => rfl
@@ -905,7 +929,7 @@ theorem p1f_un {t : Tbl} (wf : t.WF) {op : Tok} {e : Expr} (hu : t.un op.kind = 
   have hl := loop_stops t (m := 0) (na := none) (e := .un op e) (stops_rp wf 0 RP rfl rest).2 (f3 + 1) (by omega)
   rw [renderFull_un]
   simp only [List.cons_append, List.append_assoc, List.nil_append, parsePrefix, parseExpr, LP_kind, hul,
-    Bool.false_eq_true, ↓reduceIte, hu, he, hl, hk_cons, RP_kind, List.drop_succ_cons, List.drop_zero]
+    isVarName_LPAREN, Bool.false_eq_true, ↓reduceIte, hu, he, hl, hk_cons, RP_kind, List.drop_succ_cons, List.drop_zero]
 
 theorem p1f_bin {t : Tbl} (wf : t.WF) {l r : Expr} {op : Tok} {lv a} (hb : t.bin op.kind = some (lv, a))
     (hl1 : P1g fullRend t l) (hr1 : P1g fullRend t r) : P1g fullRend t (.bin l op r) := by
@@ -944,14 +968,18 @@ theorem goodF {t : Tbl} (wf : t.WF) : (e : Expr) → e.Ok t → GoodF t e
   | .real v, _ => ⟨p1_real wf v, fun h => by cases h⟩
   | .str v, _ => ⟨p1_str wf v, fun h => by cases h⟩
   | .bool b v, _ => ⟨p1_bool wf b v, fun h => by cases h⟩
-  | .enumc ns n, _ => ⟨p1_enumc wf ns n, fun h => by cases h⟩
-  | .var n, _ => ⟨p1_of_ch (ch_var wf n), fun _ => ch_var wf n⟩
+  | .enumc ns n, hok => ⟨p1_enumc wf ns n (by simpa only [Expr.Ok] using hok), fun h => by cases h⟩
+  | .var n, hok =>
+    have hn : n.kind.isVarName = true := by simpa only [Expr.Ok] using hok
+    ⟨p1_of_ch (ch_var wf n hn), fun _ => ch_var wf n hn⟩
   | .self, _ => ⟨p1_of_ch (ch_self wf), fun _ => ch_self wf⟩
   | .selected, _ => ⟨p1_of_ch (ch_selected wf), fun _ => ch_selected wf⟩
-  | .param n, _ => ⟨p1_of_ch (ch_param wf n), fun _ => ch_param wf n⟩
+  | .param n, hok =>
+    have hn : n.kind.isVarName = true := by simpa only [Expr.Ok] using hok
+    ⟨p1_of_ch (ch_param wf n hn), fun _ => ch_param wf n hn⟩
   | .field h n, hok => by
     simp only [Expr.Ok] at hok
-    have c := ch_field (rd := fullRend) n hok.1 ((goodF wf h hok.2).ch hok.1)
+    have c := ch_field (rd := fullRend) n hok.2.2 hok.1 ((goodF wf h hok.2.1).ch hok.1)
     exact ⟨p1_of_ch c, fun _ => c⟩
   | .index h i, hok => by
     simp only [Expr.Ok] at hok
@@ -960,13 +988,13 @@ theorem goodF {t : Tbl} (wf : t.WF) : (e : Expr) → e.Ok t → GoodF t e
     exact ⟨p1_of_ch c, fun _ => c⟩
   | .fcall n ps, hok => by
     simp only [Expr.Ok] at hok
-    exact ⟨p1_fcall wf n (goodFP wf ps hok), fun h => by cases h⟩
+    exact ⟨p1_fcall wf n hok.1 (goodFP wf ps hok.2), fun h => by cases h⟩
   | .icall ns n ps, hok => by
     simp only [Expr.Ok] at hok
-    exact ⟨p1_icall wf ns n (goodFP wf ps hok), fun h => by cases h⟩
+    exact ⟨p1_icall wf ns n hok.1 (goodFP wf ps hok.2), fun h => by cases h⟩
   | .ocall h n ps, hok => by
     simp only [Expr.Ok] at hok
-    exact ⟨p1_ocall n hok.1 (ch_of_struct wf hok.1) (goodFP wf ps hok.2), fun h => by cases h⟩
+    exact ⟨p1_ocall n hok.2.2.1 hok.1 (ch_of_struct wf hok.1 hok.2.1) (goodFP wf ps hok.2.2.2), fun h => by cases h⟩
   | .un op e, hok => by
     simp only [Expr.Ok] at hok
     exact ⟨p1f_un wf hok.1 (goodF wf e hok.2).p1, fun h => by cases h⟩
@@ -982,7 +1010,7 @@ theorem goodFP {t : Tbl} (wf : t.WF) : (ps : Params) → ps.Ok t → PPg fullRen
   | .nil, _ => pp_nil
   | .cons n e ps, hok => by
     simp only [Params.Ok] at hok
-    exact pp_cons wf n (p3i_full (goodF wf e hok.1).p1) (goodFP wf ps hok.2)
+    exact pp_cons wf n hok.1 (p3i_full (goodF wf e hok.2.1).p1) (goodFP wf ps hok.2.2)
 end
 
 mutual
@@ -998,8 +1026,8 @@ theorem costF_le_len (t : Tbl) : (e : Expr) → e.Ok t → cost e ≤ 6 * (rende
   | .param n, _ => by simp [cost, renderFull]
   | .field h n, hok => by
     simp only [Expr.Ok] at hok
-    have := costF_le_len t h hok.2
-    rw [show renderFull (.field h n) = renderFull h ++ [tk .DOT ".", tk .ID n] from fullRend.field h n]
+    have := costF_le_len t h hok.2.1
+    rw [show renderFull (.field h n) = renderFull h ++ [tk .DOT ".", n] from fullRend.field h n]
     simp only [cost, List.length_append, List.length_cons, List.length_nil]
     omega
   | .index h i, hok => by
@@ -1012,27 +1040,27 @@ theorem costF_le_len (t : Tbl) : (e : Expr) → e.Ok t → cost e ≤ 6 * (rende
     omega
   | .fcall n ps, hok => by
     simp only [Expr.Ok] at hok
-    have := costFP_le_len t ps hok
-    rw [show renderFull (.fcall n ps) = tk .DOUBLECOLON "::" :: tk .ID n :: LP :: (renderFullParams ps ++ [RP])
+    have := costFP_le_len t ps hok.2
+    rw [show renderFull (.fcall n ps) = tk .DOUBLECOLON "::" :: n :: LP :: (renderFullParams ps ++ [RP])
       from fullRend.fcall n ps]
     simp only [cost, List.length_append, List.length_cons, List.length_nil]
     omega
   | .icall ns n ps, hok => by
     simp only [Expr.Ok] at hok
-    have := costFP_le_len t ps hok
+    have := costFP_le_len t ps hok.2
     rw [show renderFull (.icall ns n ps) =
-      tk .NAMESPACE ns :: tk .DOUBLECOLON "::" :: tk .ID n :: LP :: (renderFullParams ps ++ [RP])
+      tk .NAMESPACE ns :: tk .DOUBLECOLON "::" :: n :: LP :: (renderFullParams ps ++ [RP])
       from fullRend.icall ns n ps]
     simp only [cost, List.length_append, List.length_cons, List.length_nil]
     omega
   | .ocall h n ps, hok => by
     simp only [Expr.Ok] at hok
-    have := costFP_le_len t ps hok.2
+    have := costFP_le_len t ps hok.2.2.2
     have hh : cost h ≤ 6 * (renderFull h).length := by
       have hs := hok.1
       cases h <;> simp [Expr.isStruct] at hs <;> simp [cost, renderFull]
     rw [show renderFull (.ocall h n ps) =
-      renderFull h ++ tk .DOT "." :: tk .ID n :: LP :: (renderFullParams ps ++ [RP]) from fullRend.ocall h n ps]
+      renderFull h ++ tk .DOT "." :: n :: LP :: (renderFullParams ps ++ [RP]) from fullRend.ocall h n ps]
     simp only [cost, List.length_append, List.length_cons, List.length_nil]
     omega
   | .un op e, hok => by
@@ -1050,16 +1078,16 @@ theorem costFP_le_len (t : Tbl) : (ps : Params) → ps.Ok t → costP ps ≤ 6 *
   | .nil, _ => by simp [costP]
   | .cons n e .nil, hok => by
     simp only [Params.Ok] at hok
-    have := costF_le_len t e hok.1
-    rw [show renderFullParams (.cons n e .nil) = tk .ID n :: tk .COLON ":" :: renderFull e from fullRend.pone n e]
+    have := costF_le_len t e hok.2.1
+    rw [show renderFullParams (.cons n e .nil) = n :: tk .COLON ":" :: renderFull e from fullRend.pone n e]
     simp only [costP, List.length_cons]
     omega
   | .cons n e (.cons n' e' ps), hok => by
     simp only [Params.Ok] at hok
-    have := costF_le_len t e hok.1
-    have := costFP_le_len t (.cons n' e' ps) (by simp only [Params.Ok]; exact hok.2)
+    have := costF_le_len t e hok.2.1
+    have := costFP_le_len t (.cons n' e' ps) (by simp only [Params.Ok]; exact hok.2.2)
     rw [show renderFullParams (.cons n e (.cons n' e' ps)) =
-      tk .ID n :: tk .COLON ":" :: (renderFull e ++ tk .COMMA "," :: renderFullParams (.cons n' e' ps))
+      n :: tk .COLON ":" :: (renderFull e ++ tk .COMMA "," :: renderFullParams (.cons n' e' ps))
       from fullRend.pmore n e n' e' ps]
     simp only [List.length_cons, List.length_append]
     simp only [costP] at this ⊢
